@@ -31,7 +31,12 @@ POOL: List[Any] = [
     0.0, -0.0, 1.0, 1.5, -2.5, 0.1, 1e-50, 16777217.0, float(2**31), float(2**53), float(2**63), 1e40, -1e40,
     FLT_MAX, F32_BELOW, F32_OVERFLOW, NAN, INF, -INF,
     "", "a", "b", "1", "1.5", "nan", "2020-01-01", "é", "\U0001F600x",
-    b"", b"x", b"\xff\xfe",
+    # LONG values, several sharing long prefixes (sizes around 16 / 17 / 32 / 64 / 256: the lengths at which
+    # statistics are commonly truncated), so that a file's minimum and maximum differ only far to the right
+    "0123456789abcdef", "0123456789abcdefg", "0123456789abcdefh", "customer/eu-west/0007", "customer/eu-west/0008",
+    "customer/eu-west/0007/suffix", "p" * 31 + "a", "p" * 31 + "b", "q" * 64 + "1", "q" * 64 + "2", "r" * 300, "r" * 299 + "s",
+    "é" * 20 + "a", "é" * 20 + "b", "\U0001F600" * 17, "\U0001F600" * 16 + "\U0001F601",
+    b"", b"x", b"\xff\xfe", b"k" * 40, b"k" * 40 + b"\x01", b"\xff" * 20,
     dt.date(2020, 1, 1), dt.date(1969, 12, 31), dt.date(2020, 2, 29),
     dt.datetime(2020, 1, 1), dt.datetime(2020, 1, 1, 12, 30, 1, 5), dt.datetime(1969, 12, 31, 23, 59, 59, 999999),
     dt.datetime(2020, 1, 1, tzinfo=UTC), dt.datetime(2020, 1, 1, tzinfo=PLUS2),
